@@ -191,6 +191,8 @@ def run(prog: Program, rep, tier: str) -> None:
         rep.check(ok, "result-fields", sv.qualname, short(s2.stmt), "restore_sol receives (iterate.x, iterate.y, iterate.bounds_dual) of the last accepted iterate", sv.loc(c))
     sp_calls = [n for n in own_nodes(sv.node) if is_method_call(n, "_set_path")]
     for c in sp_calls:
+        if N.get("path") is None or N.get("times") is None:
+            break   # path recording not in the recognised form: decided (as an analysis error) by L.path_lists() below
         s2 = ff.stmt_of(c)
         pv = U(ff.resolved(s2.stmt, ast.Name(id=N["path"] or "path", ctx=ast.Load())))
         tv = U(ff.resolved(s2.stmt, ast.Name(id=N["times"] or "path_times", ctx=ast.Load())))
@@ -201,11 +203,59 @@ def run(prog: Program, rep, tier: str) -> None:
     path_shape_dims(prog, rep, rv.get("problem"), sv, res[0])
     dist_factor(prog, rep, L, res[0], si)
     pass_through(prog, rep)
+    registry(prog, rep)
+    L.path_lists()   # analysis error (after everything that could be decided) if the path recording left the recognised form
     # announcements go to this solver's own registry
     init = prog.func("pygradflow.solver.Solver.__init__")
     cb = [n for n in own_nodes(init.node) if isinstance(n, ast.Assign) and any(U(t) == "self.callbacks" for t in n.targets)]
     ok = len(cb) == 1 and isinstance(cb[0].value, ast.Call) and dotted(cb[0].value.func) == "Callbacks" and not cb[0].value.args
     rep.check(ok, "own-callback-registry", init.qualname, short(cb[0]) if cb else "self.callbacks", "every Solver creates its own callback registry (announcements cannot leak between solvers)", init.loc())
+
+
+def registry(prog, rep) -> None:
+    """every announcement reaches every registered callback: the registry is a per-type list, register appends a fresh handle,
+    unregister removes exactly that handle, and __call__ invokes each stored handle unconditionally with the arguments given.
+    Any other container discipline (keys, indices, weak references) is not understood -> analysis error, not a verdict."""
+    c = prog.cls("pygradflow.callbacks.Callbacks")
+    reg, unreg, call = c.methods.get("register"), c.methods.get("unregister"), c.methods.get("__call__")
+    if reg is None or unreg is None or call is None:
+        raise AnalysisError("Callbacks no longer has register / unregister / __call__")
+    fr = facts_for(reg)
+    tp, cb = [p for p in reg.params if p != "self"][:2]
+    apps = [n for n in own_nodes(reg.node) if isinstance(n, ast.Call) and isinstance(n.func, ast.Attribute) and n.func.attr == "append"]
+    stores = [n for n in own_nodes(reg.node) if isinstance(n, ast.Subscript) and isinstance(n.ctx, ast.Store)]
+    if len(apps) != 1 or stores:
+        raise AnalysisError("Callbacks.register does not append to a per-type list (registry not in a recognised form)")
+    si = fr.stmt_of(apps[0])
+    recv = U(fr.resolved(si.stmt, apps[0].func.value))
+    arg = U(fr.resolved(si.stmt, apps[0].args[0])) if apps[0].args else ""
+    ok = recv == f"self._callbacks[{tp}]" and arg == f"CallbackHandle({tp}, {cb})" and not [f for f in si.facts]
+    rets = returns_of(reg)
+    ok = ok and len(rets) == 1 and U(fr.resolved(rets[0], rets[0].value)) == arg
+    rep.check(ok, "registry-delivers-to-all", reg.qualname, short(si.stmt), "register appends a fresh handle for (type, callback) to that type's list, unconditionally, and returns it", reg.loc(apps[0]))
+    fc = facts_for(call)
+    ctp = [p for p in call.params if p != "self"][0]
+    loops = [x for x in fc.order if isinstance(x.stmt, ast.For)]
+    ok = False
+    if len(loops) == 1 and isinstance(loops[0].stmt.target, ast.Name):
+        lp = loops[0].stmt
+        it = U(fc.resolved(lp, lp.iter))
+        src_ok = it in (f"self._callbacks[{ctp}]", f"list(self._callbacks[{ctp}])", f"tuple(self._callbacks[{ctp}])", f"self._callbacks[{ctp}][:]")
+        body = [b for b in lp.body if not (isinstance(b, ast.Expr) and isinstance(b.value, ast.Constant))]
+        inv = len(body) == 1 and isinstance(body[0], ast.Expr) and isinstance(body[0].value, ast.Call) and U(body[0].value.func) == lp.target.id \
+            and [U(a) for a in body[0].value.args] == [f"*{call.node.args.vararg.arg}" if call.node.args.vararg else "?"] \
+            and [k.arg for k in body[0].value.keywords] == [None]
+        ok = src_ok and inv and not loops[0].facts and not lp.orelse
+    rep.check(ok, "registry-delivers-to-all", call.qualname, short(loops[0].stmt) if loops else "__call__",
+              "an announcement invokes every handle stored for its type, unconditionally, with the announced arguments", call.loc())
+    fu = facts_for(unreg)
+    hp = [p for p in unreg.params if p != "self"][0]
+    rm = [n for n in own_nodes(unreg.node) if isinstance(n, ast.Call) and isinstance(n.func, ast.Attribute) and n.func.attr in ("remove", "pop", "clear") or isinstance(n, ast.Delete)]
+    ok = False
+    if len(rm) == 1 and isinstance(rm[0], ast.Call) and rm[0].func.attr == "remove":
+        s_rm = fu.stmt_of(rm[0])
+        ok = U(fu.resolved(s_rm.stmt, rm[0].func.value)) == f"self._callbacks[{hp}.callback_type]" and [U(fu.resolved(s_rm.stmt, a)) for a in rm[0].args] == [hp] and not s_rm.facts
+    rep.check(ok, "registry-delivers-to-all", unreg.qualname, U(rm[0])[:80] if rm else "unregister", "unregister removes exactly the given handle (no other callback loses its registration)", unreg.loc())
 
 
 def path_shape_rule(prog, rep) -> None:
